@@ -393,6 +393,7 @@ func eddsaJobs(c *vh.Check, cv *teCurve) []job {
 		{"wrong-msg", sig, pub.Bytes(), msg2},
 	}
 	var jobs []job
+	jobs = append(jobs, eddsaCraftedJobs(c, cv, msg, fb)...)
 	for _, v := range vs {
 		v := v
 		if v.sig == nil {
@@ -427,6 +428,149 @@ func eddsaJobs(c *vh.Check, cv *teCurve) []job {
 			default:
 				c.Outcome("eddsa:" + cv.name + ":invalid-accepted:" + v.name)
 				viol(c, "eddsa:"+cv.name+":invalid-accepted", key, map[string]any{"what": "circuit accepts a signature the native verifier rejects", "variant": v.name, "sig": fmt.Sprintf("%x", v.sig)})
+			}
+		})
+	}
+	return jobs
+}
+
+// refEdDSA: the cofactored verification equation of gnark-crypto's verifier on big.Int points:
+// [c*S]B == [c](R + [H(R,A,M)]A), H = MiMC over the canonical encodings.
+func refEdDSA(cv *teCurve, A, R tpt, S *big.Int, msg []byte, fb int) (bool, *big.Int) {
+	if !cv.onCurve(A) || !cv.onCurve(R) {
+		return false, nil
+	}
+	h := cv.mimc.New()
+	for _, x := range []*big.Int{R.X, R.Y, A.X, A.Y} {
+		h.Write(x.FillBytes(make([]byte, fb)))
+	}
+	h.Write(msg)
+	hram := new(big.Int).SetBytes(h.Sum(nil))
+	cof := cv.p.Cofactor
+	l1, ok1 := cv.mul(cv.base(), S)
+	lhs, ok2 := cv.mul(l1, cof)
+	hA, ok3 := cv.mul(A, hram)
+	sum, ok4 := cv.add(hA, R)
+	rhs, ok5 := cv.mul(sum, cof)
+	if !(ok1 && ok2 && ok3 && ok4 && ok5) {
+		return false, hram
+	}
+	return lhs.eq(rhs), hram
+}
+
+// torsionOfOrder returns a point of exact order n (n a power of two dividing the cofactor), found
+// as [l * cofactor/n] P for curve points P obtained by solving the curve equation; nil if none is
+// found or the textbook addition law hits an exceptional case on the way.
+func (c *teCurve) torsionOfOrder(n int64) *tpt {
+	cof := c.p.Cofactor.Int64()
+	if n < 2 || cof%n != 0 {
+		return nil
+	}
+	k := new(big.Int).Mul(c.p.Order, big.NewInt(cof/n))
+	for x := int64(2); x < 400; x++ {
+		// y^2 = (1 - a x^2) / (1 - d x^2)
+		X := big.NewInt(x)
+		x2 := new(big.Int).Mul(X, X)
+		num := c.m(new(big.Int).Sub(big.NewInt(1), new(big.Int).Mul(c.p.A, x2)))
+		den := c.m(new(big.Int).Sub(big.NewInt(1), new(big.Int).Mul(c.p.D, x2)))
+		if den.Sign() == 0 {
+			continue
+		}
+		y2 := c.m(num.Mul(num, den.ModInverse(den, c.q)))
+		Y := new(big.Int).ModSqrt(y2, c.q)
+		if Y == nil {
+			continue
+		}
+		P := tpt{X, Y}
+		if !c.onCurve(P) {
+			continue
+		}
+		T, ok := c.mul(P, k)
+		if !ok {
+			continue
+		}
+		// exact order n: [n]T = I and [n/2]T != I
+		tn, ok1 := c.mul(T, big.NewInt(n))
+		th, ok2 := c.mul(T, big.NewInt(n/2))
+		if ok1 && ok2 && tn.eq(c.id0()) && !th.eq(c.id0()) {
+			return &T
+		}
+	}
+	return nil
+}
+
+// eddsaCraftedJobs: signatures made by a key holder whose commitment R carries a torsion
+// component: R = [r]B + T with T of order 2, 4, ... up to the cofactor, S = r + H(R,A,M) a.  The
+// cofactored equation of the native verifier holds (the reference is validated against
+// gnark-crypto on the honest signature); the defect [S]B - [H]A - R = -T is killed only by the FULL
+// cofactor.
+func eddsaCraftedJobs(c *vh.Check, cv *teCurve, msg []byte, fb int) []job {
+	a := new(big.Int).Mod(new(big.Int).Rsh(genericT, 3), cv.p.Order)
+	r := new(big.Int).Mod(new(big.Int).Add(genericT, big.NewInt(777)), cv.p.Order)
+	A, okA := cv.mul(cv.base(), a)
+	R0, okR := cv.mul(cv.base(), r)
+	if !okA || !okR {
+		c.Fatal("eddsa crafted: base multiples hit an exceptional case on %s", cv.name)
+	}
+	sign := func(R tpt) *big.Int {
+		_, hram := refEdDSA(cv, A, R, big.NewInt(0), msg, fb)
+		s := new(big.Int).Mul(hram, a)
+		return s.Add(s, r).Mod(s, cv.p.Order)
+	}
+	// conformance of the reference: an honest signature (T = identity) verifies, S+1 does not
+	if ok, _ := refEdDSA(cv, A, R0, sign(R0), msg, fb); !ok {
+		c.Fatal("eddsa reference rejects an honest signature on %s", cv.name)
+	}
+	if ok, _ := refEdDSA(cv, A, R0, new(big.Int).Add(sign(R0), big.NewInt(1)), msg, fb); ok {
+		c.Fatal("eddsa reference accepts S+1 on %s", cv.name)
+	}
+	type crafted struct {
+		name string
+		R    tpt
+		S    *big.Int
+	}
+	cs := []crafted{{"keyholder:honest", R0, sign(R0)}}
+	for n := int64(2); n <= cv.p.Cofactor.Int64(); n *= 2 {
+		T := cv.torsionOfOrder(n)
+		if T == nil {
+			c.Count("eddsa", fmt.Sprintf("%s: no torsion point of order %d found", cv.name, n), 1)
+			continue
+		}
+		R, ok := cv.add(R0, *T)
+		if !ok {
+			continue
+		}
+		cs = append(cs, crafted{fmt.Sprintf("keyholder:R+T(order %d of cofactor %d)", n, cv.p.Cofactor.Int64()), R, sign(R)})
+	}
+	var jobs []job
+	for _, k := range cs {
+		k := k
+		jobs = append(jobs, func() {
+			want, _ := refEdDSA(cv, A, k.R, k.S, msg, fb)
+			var w eddsaCircuit
+			w.id = cv.id
+			w.Msg = new(big.Int).SetBytes(msg)
+			w.Pub.A.X, w.Pub.A.Y = A.X, A.Y
+			w.Sig.R.X, w.Sig.R.Y = k.R.X, k.R.Y
+			w.Sig.S = k.S
+			var err error
+			key := "eddsa:" + cv.name + "/" + k.name
+			if guarded(runTimeout(c), func() { err = test.IsSolved(&eddsaCircuit{id: cv.id}, &w, cv.q) }) {
+				viol(c, "eddsa:hang", key+"/hang", map[string]any{"what": "did not return"})
+				return
+			}
+			c.Evals.Add(1)
+			c.Traces.Add(1)
+			c.Count("eddsa", cv.name, 1)
+			switch {
+			case (err == nil) == want:
+				c.Outcome(fmt.Sprintf("eddsa:%s:crafted:agree-accept=%v", cv.name, want))
+			case want:
+				c.Outcome("eddsa:" + cv.name + ":valid-rejected")
+				viol(c, "eddsa:"+cv.name+":valid-rejected", key, map[string]any{"what": "circuit rejects a signature that satisfies the native (cofactored) verification equation", "error": shortErr(err), "R": k.R.String(), "S": k.S.String()})
+			default:
+				c.Outcome("eddsa:" + cv.name + ":invalid-accepted:" + k.name)
+				viol(c, "eddsa:"+cv.name+":invalid-accepted", key, map[string]any{"what": "circuit accepts a signature the cofactored equation rejects"})
 			}
 		})
 	}
